@@ -573,4 +573,172 @@ theorem preRun_var (img : Image) (s0 : State) (pc h : Nat) (rest : List Frame) (
     exact ⟨_, _, fl, rfl, by simpa [getLV_cons] using hv⟩
 
 
+/-! ## loops with an index variable -/
+
+/-- `x + incr` as the VM computes it (`None` if it would fault) -/
+def addVal (x incr : Val) : Val := (Val.add x incr).getD .none
+
+/-- the index variable after `k` post-steps: `incr` added `k` times, one addition at a time,
+with Python's int/float typing at each addition -/
+def addN (x incr : Val) : Nat → Val
+  | 0 => x
+  | k + 1 => addVal (addN x incr k) incr
+
+theorem addN_succ' (x incr : Val) (k : Nat) : addN x incr (k + 1) = addN (addVal x incr) incr k := by
+  induction k with
+  | zero => rfl
+  | succ k ih => rw [addN, ih]; rfl
+
+/-- the post-step of a counted loop with index variable `v`, back at the loop top:
+`counter := counter - 1; v := v + incr` -/
+def varPost (topPc : Nat) (v : String) (u : State) : State :=
+  { ({ u with stack := mapTop decCounter u.stack } : State).putVariable v
+      (addVal (u.getVariable v) (u.getLoopVar .incr)) with pc := (topPc : Int) }
+
+theorem loopPost_some_eq (v : String) : loopPost (some v) =
+    ([Instr.push (.loopVar .counter), .pushq (.int 1), .op .sub] ++ [Instr.pop (.loopVar .counter)]) ++
+    ([Instr.push (.var v), .push (.loopVar .incr), .op .add] ++ [Instr.pop (.var v)]) := rfl
+
+/-- post-step with index variable and the back jump: nine steps -/
+theorem run_post_some (img : Image) (u : State) (pc top : Nat) (v : String)
+    (vars : List (LoopVar × Val)) (h : Nat)
+    (rest : List Frame) (c : Rat) (fl : Bool) (x d : Rat) (fx fd : Bool)
+    (hs : u.status = .running) (hpc : u.pc = (pc : Int)) (hc : CodeAt img pc (loopPost (some v)))
+    (off : Int) (hj : img.code[pc + 8]? = some (.jump .always off))
+    (hoff : ((pc + 8 : Nat) : Int) + off = (top : Int))
+    (hst : u.stack = .loop vars h :: rest) (hn : Num (getLV vars .counter) c fl)
+    (hx : Num (u.getVariable v) x fx) (hd : Num (getLV vars .incr) d fd) :
+    run img 9 u = varPost top v u ∧
+      ∃ cv', ({ u with stack := mapTop decCounter u.stack } : State).stack =
+          .loop (setLV vars .counter cv') h :: rest ∧ Num cv' (c - 1) fl ∧
+        getLV (setLV vars .counter cv') .incr = getLV vars .incr := by
+  have hc1 : CodeAt img pc [Instr.push (.loopVar .counter), .pushq (.int 1), .op .sub,
+      .pop (.loopVar .counter)] := by
+    rw [loopPost_some_eq] at hc; exact hc.left
+  have hc2 : CodeAt img (pc + 4) [Instr.push (.var v), .push (.loopVar .incr), .op .add,
+      .pop (.var v)] := by
+    rw [loopPost_some_eq] at hc; exact hc.right
+  obtain ⟨cv', hsub, hn'⟩ := num_dec hn
+  let u1 : State := { u with pc := (pc : Int) + 4, stack := .loop (setLV vars .counter cv') h :: rest }
+  have hrun1 : run img 4 u = u1 :=
+    run_group_lv img _ _ .sub .counter u pc _ _ cv' vars h rest hs hpc hc1 hst
+      (pfStep_push_lv u u.eval .counter _ (getLoopVar_eq hst _) hn.ne_none) (pfStep_pushq _ _ _)
+      (by show Val.sub _ _ = _; exact hsub)
+  have hinc : getLV (setLV vars .counter cv') .incr = getLV vars .incr :=
+    getLV_setLV_other _ _ _ _ (by simp)
+  have hstk : ({ u with stack := mapTop decCounter u.stack } : State).stack =
+      .loop (setLV vars .counter cv') h :: rest := by
+    simp [hst, mapTop, decCounter, hsub]
+  refine ⟨?_, cv', hstk, hn', hinc⟩
+  have hst1 : u1.stack = .loop (setLV vars .counter cv') h :: rest := rfl
+  have hgv : u1.getVariable v = u.getVariable v :=
+    getVariable_retop u u1 vars _ h h rest v hst hst1 rfl rfl
+  obtain ⟨hadd, _⟩ := num_add hx hd
+  have hrun2 : run img 4 u1 =
+      { u1.putVariable v (addVal (u.getVariable v) (getLV vars .incr)) with pc := ((pc + 4 : Nat) : Int) + 4 } :=
+    run_group_var img _ _ .add v u1 (pc + 4) _ _ _ (by exact hs) (by simp [u1]) hc2
+      (pfStep_push_var u1 u1.eval v _ hgv hx.ne_none)
+      (pfStep_push_lv u1 _ .incr _ (by rw [getLoopVar_eq hst1, hinc]) hd.ne_none)
+      (by show Val.add _ _ = _; rw [hadd]; simp [addVal, hadd])
+  have hrun3 : run img 1 { u1.putVariable v (addVal (u.getVariable v) (getLV vars .incr)) with
+      pc := ((pc + 4 : Nat) : Int) + 4 } = varPost top v u := by
+    rw [run_one _ _ (by simpa [putVariable_status] using hs),
+      step_jump_always img _ (pc + 8) _ (by simpa [putVariable_status] using hs) (by simp; omega) hj]
+    simp only [varPost, getLoopVar_eq hst]
+    have e : ({ u with stack := mapTop decCounter u.stack } : State) = { u1 with pc := u.pc } := by
+      simp only [u1]
+      apply State.ext' <;> simp [hst, mapTop, decCounter, hsub]
+    rw [e, putVariable_with_pc]
+    apply State.ext' <;> simp
+    omega
+  exact run_trans hrun1 (run_trans hrun2 hrun3)
+
+
+/-- **the body contract of a loop with index variable `v`**: `BodyRun`, and the body does not
+assign `v` (what `v` denotes is the same after the body), defines no macro called `v`, and
+leaves the frames below the loop frame in a shape in which names resolve (`ScopeOk`) -/
+structure BodyRunV (img : Image) (b : List Instr) (v : String) (t u : State) : Prop
+    extends BodyRun img b t u where
+  keeps : u.getVariable v = t.getVariable v
+  const : u.constants.get v = none
+  scope : ScopeOk u.stack
+
+theorem loopPost_some_length (v : String) : (loopPost (some v)).length = 8 := rfl
+
+/-- **counted loop with index variable, from its top.** -/
+theorem counted_var_loop_chain (img : Image) (top : Nat) (b : List Instr) (v : String)
+    (hc : CodeAt img top (loopTail counterTest (b ++ loopPost (some v)))) :
+    ∀ (s : State) (ts : List State) (s' : State),
+      Passes (BodyRunV img b v) (enterBody (top + 5)) (varPost top v) s ts s' →
+      ∀ (vars : List (LoopVar × Val)) (h : Nat) (rest : List Frame) (c : Rat) (fl : Bool)
+        (x : Rat) (fx : Bool) (d : Rat) (fd : Bool),
+        s.status = .running → s.pc = (top : Int) → s.stack = .loop vars h :: rest →
+        s.eval.length = h → Num (getLV vars .counter) c fl → Num (getLV vars .incr) d fd →
+        Num (s.getVariable v) x fx → ts.length = passes c →
+        (∃ k, run img k s =
+          exitLoop (top + (loopTail counterTest (b ++ loopPost (some v))).length) s') ∧
+        s'.eval = s.eval ∧ s'.status = .running ∧
+        (∃ vars' rest', s'.stack = .loop vars' h :: rest') ∧
+        (∀ k (hk : k < ts.length), ts[k].getVariable v = addN (s.getVariable v) (getLV vars .incr) k) ∧
+        s'.getVariable v = addN (s.getVariable v) (getLV vars .incr) ts.length := by
+  obtain ⟨hT, hJ, hB, hP, hBk, hE⟩ := loopTail_parts hc
+  have hlen : (loopTail counterTest (b ++ loopPost (some v))).length = 4 + b.length + 8 + 2 + 1 := by
+    rw [loopTail_length]; simp [counterTest, testOp, loopPost]; omega
+  have hcl : counterTest.length = 4 := rfl
+  rw [hcl, loopPost_some_length] at hJ hBk hE
+  rw [hcl] at hB hP
+  intro s ts s' hp
+  induction hp with
+  | done s =>
+    intro vars h rest c fl x fx d fd hs hpc hst hev hn hd hx hlen'
+    have hneg : c ≤ 0 := passes_zero_iff.1 (by simpa using hlen'.symm)
+    refine ⟨⟨6, ?_⟩, rfl, hs, ⟨vars, rest, hst⟩, fun k hk => by simp at hk, rfl⟩
+    rw [run_test_exit img s top (b.length + 8) vars h rest c fl hs hpc hT hJ
+      (by rw [← hE]; congr 1; omega) hst hev hn hneg, hlen]
+    congr 1; omega
+  | @pass s u s' ts hK hrest ih =>
+    intro vars h rest c fl x fx d fd hs hpc hst hev hn hd hx hlen'
+    have hpos : 0 < c := by
+      apply Classical.byContradiction
+      intro hc'
+      have : c ≤ 0 := by grind
+      rw [passes_nonpos this] at hlen'
+      simp at hlen'
+    have henter := run_test_enter img s top (b.length + 8) vars h rest c fl hs hpc hT hJ hst hn hpos
+    obtain ⟨⟨⟨k1, hk1⟩, hur, hupc, huev, hufr⟩, hkeep, hconst, hscope⟩ := hK
+    obtain ⟨rest', hust⟩ := hufr vars h rest (by simpa [enterBody] using hst)
+    have hupc' : u.pc = ((top + 4 + 1 + b.length : Nat) : Int) := by
+      rw [hupc]; simp [enterBody]; omega
+    have hkeep' : u.getVariable v = s.getVariable v := hkeep
+    obtain ⟨hpost, cv', hpst, hn', hinc⟩ := run_post_some img u (top + 4 + 1 + b.length) top v vars h rest'
+      c fl x d fx fd hur hupc' hP _ (by rw [← hBk]) (by simp; omega) hust hn
+      (by rw [hkeep']; exact hx) hd
+    -- the assignment to `v`
+    obtain ⟨hget, hsc2, _, htop2⟩ := putVariable_get ({ u with stack := mapTop decCounter u.stack } : State) v
+      (addVal (u.getVariable v) (u.getLoopVar .incr)) hconst (by rw [hpst]; rw [hust] at hscope; exact hscope.retop)
+    obtain ⟨rest2, hst2⟩ := htop2 _ h rest' hpst
+    have hgv2 : (varPost top v u).getVariable v = addVal (s.getVariable v) (getLV vars .incr) := by
+      have : (varPost top v u).getVariable v = addVal (u.getVariable v) (u.getLoopVar .incr) := hget
+      rw [this, hkeep', getLoopVar_eq hust]
+    obtain ⟨hadd, hnum2⟩ := num_add hx hd
+    have hx2 : Num ((varPost top v u).getVariable v) (x + d) (fx || fd) := by
+      rw [hgv2]; simpa [addVal, hadd] using hnum2
+    obtain ⟨⟨k2, hk2⟩, hev2, hs2, hfr2, hvals, hfin⟩ := ih (setLV vars .counter cv') h rest2 (c - 1) fl
+      (x + d) (fx || fd) d fd
+      (by simpa [varPost, putVariable_status] using hur) (by simp [varPost]) (by exact hst2)
+      (by simp only [varPost]; rw [putVariable_eval]; simp only []; rw [huev]; simpa [enterBody] using hev)
+      (by rw [getLV_setLV_self]; exact hn') (by rw [hinc]; exact hd) hx2
+      (by rw [passes_pos hpos] at hlen'; simpa using hlen')
+    refine ⟨⟨5 + k1 + 9 + k2, ?_⟩, ?_, hs2, hfr2, ?_, ?_⟩
+    · rw [run_add, run_add, run_add, henter, hk1, hpost, hk2]
+    · rw [hev2]; simp only [varPost]; rw [putVariable_eval]; simp only []; rw [huev]; simp [enterBody]
+    · intro k hk
+      cases k with
+      | zero => rfl
+      | succ k =>
+        simp only [List.getElem_cons_succ]
+        rw [hvals k (by simpa using hk), hgv2, hinc, addN_succ']
+    · rw [hfin, hgv2, hinc, List.length_cons, addN_succ']
+
+
 end Bardolph
